@@ -32,7 +32,7 @@ TEXT = {
  "C16": ("differential deterministic simulation: one pthread-only interpreter, linked with the library's own @myth-ld.opts against an LD-flavour build of the library with hooks on, executes generated determinate programs over the supported subset under seeded schedules; the expected output of each program comes from the same binary run in a fresh process on the system pthreads (MYTH_WRAP_PTHREAD=0); oracle = identical output incl. every return code, no hang", "5.C16"),
 }
 NOTE = {
- "C16": "link-time wrapping is explored under the simulator; preloading (dl) only by a natural-timing smoke; the reference executions use the OS scheduler but decide nothing by themselves",
+ "C16": "link-time wrapping (ld) is explored under the simulator; the preloading mechanism (dl) is NOT run by this check (same wrapper sources, symbol resolution differs; the repository's own *_dl tests exercise it under natural timing); the reference executions use the OS scheduler but decide nothing by themselves",
  "C18": "the recorder, not MassiveThreads, is the system under test; the tasking runtime is simulated; PAPI counters off",
  "C19": "byte comparison ignores the two in-memory pointers of the string-table header that the writer stores and the reader overwrites; no I/O fault injection",
  "C03": "x86-64 inline-assembly context switch only; MXCSR/x87 control words are not saved by the library (MYTH_SAVE_FPCSR 0) and are not checked; the red-zone skip is internal to the library frame at the asm statement",
